@@ -229,6 +229,10 @@ def case_strategy(draw, tier):
         'encoding': encoding,
         'header': header,
         'titles': draw(st.booleans()),
+        # a history: another description was loaded from the same two paths
+        # before the files were rewritten with this one
+        'prior': draw(st.sampled_from([None, None, 'delimiter', 'swap-date',
+                                       'fewer-cols', 'all-strings'])),
         'avoid_known': draw(st.sampled_from([True] * 9 + [False])),
     }
 
@@ -313,7 +317,7 @@ def valid(case):
                     if v is not None:
                         v.encode(case['encoding'])
             c['name'].encode(case['encoding'])
-        return True
+        return case.get('prior') in PRIORS
     except Exception:
         return False
 
@@ -367,6 +371,37 @@ def metadata(case):
             'dialect': dialect, 'tableSchema': {'columns': cols}}
 
 
+PRIORS = [None, 'delimiter', 'swap-date', 'fewer-cols', 'all-strings']
+
+
+def prior_description(case):
+    """A different description of a table at the same paths."""
+    import copy
+    v = copy.deepcopy(case)
+    how = case.get('prior')
+    if how == 'delimiter':
+        v['delimiter'] = DELIMS[(DELIMS.index(case['delimiter']) + 1)
+                                % len(DELIMS)]
+    elif how == 'fewer-cols':
+        if len(v['cols']) > 1:
+            v['cols'] = v['cols'][:-1]
+        else:
+            v['cols'][0]['name'] += '_old'
+    elif how == 'all-strings':
+        for c in v['cols']:
+            c['type'] = 'string'
+            c.pop('format', None)
+            c.pop('base', None)
+    elif how == 'swap-date':
+        for c in v['cols']:
+            if c['type'] in ('date', 'datetime') and c.get('format'):
+                c['format'] = c['format'].replace('dd', '\0').replace(
+                    'MM', 'dd').replace('\0', 'MM')
+            elif c['type'] == 'boolean' and c.get('format'):
+                c['format'] = '|'.join(reversed(c['format'].split('|')))
+    return v
+
+
 def write_files(case, d):
     buf = io.StringIO()
     w = csv.writer(buf, delimiter=case['delimiter'], lineterminator='\n',
@@ -411,6 +446,13 @@ def run(case, ctx):
     out = Outcome()
     out.excluded = list(case.get('steered', []))
     d = ctx.fresh_dir()
+    if case.get('prior'):
+        path, mdpath = write_files(case, d)
+        with open(mdpath, 'w', encoding='utf-8') as f:
+            json.dump(metadata(prior_description(case)), f,
+                      ensure_ascii=False)
+        quiet(csv2pandas, path, mdpath)     # whatever it gives
+        out.label('history:metadata-rewritten-in-place')
     path, mdpath = write_files(case, d)
     out.label('delim:%r' % case['delimiter'], 'enc:' + case['encoding'],
               'header:' + case['header'])
